@@ -1,8 +1,98 @@
 import PyresampleModel.Model.C11
+import PyresampleModel.Proofs.Num
 
 /-
-  C11 — property theorems (stub: none yet).
+  C11 — property theorems: the slice arithmetic never drops a needed pixel.
 -/
 namespace PyresampleModel.C11
+
+theorem aux_maxI (a b : Int) : maxI a b = max a b := by unfold maxI; split <;> omega
+theorem aux_minI (a b : Int) : minI a b = min a b := by unfold minI; split <;> omega
+
+/-- **same CRS, one axis**: every pixel index `c` in range whose pixel contains — or is nearest to —
+an array position `u` strictly between the positions of the target's two edges lies inside
+`[start, stop)` (unflipped branch: `u0 < u < u1`) -/
+theorem samecrs_covers_axis (n : Nat) (u0 u1 u : Rat) (c : Int) (hu0 : u0 < u) (hu1 : u < u1)
+    (hc : (c : Rat) - 1/2 ≤ u ∧ u ≤ (c : Rat) + 1/2) (hc0 : 0 ≤ c) (hcn : c < n) :
+    (startStopX n u0 u1 false).1 ≤ c ∧ c < (startStopX n u0 u1 false).2 := by
+  simp only [startStopX, aux_maxI, aux_minI, Bool.false_eq_true, if_false]
+  have h0 := roundHalfEven_spec u0
+  have h1 := roundHalfEven_spec u1
+  have a : ((roundHalfEven u0 : Int) : Rat) < (c : Rat) + 1 := by linarith [h0.1, hc.2]
+  have b : (c : Rat) - 1 < ((roundHalfEven u1 : Int) : Rat) := by linarith [h1.2, hc.1]
+  have a' : roundHalfEven u0 < c + 1 := by exact_mod_cast a
+  have b' : c - 1 < roundHalfEven u1 := by exact_mod_cast b
+  omega
+
+/-- the flipped branch is the unflipped one with the two edges exchanged -/
+theorem samecrs_flip (n : Nat) (u0 u1 : Rat) : startStopX n u0 u1 true = startStopX n u1 u0 false := by
+  simp [startStopX]
+
+theorem samecrs_y_eq_x (n : Nat) (v0 v1 : Rat) (f : Bool) : startStopY n v0 v1 f = startStopX n v0 v1 (!f) := by
+  cases f <;> simp [startStopY, startStopX]
+
+/-- **same CRS: no excess beyond one pixel** — away from pixel borders the slice bounds are exactly
+the indices of the pixels containing the two edges (clamped to the grid) -/
+theorem samecrs_exact_axis (n : Nat) (u0 u1 : Rat) (c0 c1 : Int)
+    (h0 : (c0 : Rat) - 1/2 < u0 ∧ u0 < (c0 : Rat) + 1/2) (h1 : (c1 : Rat) - 1/2 < u1 ∧ u1 < (c1 : Rat) + 1/2) :
+    startStopX n u0 u1 false = (max 0 c0, min (n : Int) (c1 + 1)) := by
+  simp only [startStopX, aux_maxI, aux_minI, Bool.false_eq_true, if_false, roundHalfEven_eq h0.1 h0.2, roundHalfEven_eq h1.1 h1.2]
+
+/-- **different CRS, one axis**: if the array-coordinate bounds of the polygon contain the position
+`u` of a needed target centre, then every in-grid pixel `c ≥ 0` containing or nearest to `u` lies
+inside the expanded slice -/
+theorem bounds_slices_cover (lo hi u : Rat) (c : Int) (hlo : lo ≤ u) (hhi : u ≤ hi)
+    (hc : (c : Rat) - 1/2 ≤ u ∧ u ≤ (c : Rat) + 1/2) (hc0 : 0 ≤ c) :
+    (boundsSlice lo hi).1 ≤ c ∧ c < (boundsSlice lo hi).2 := by
+  simp only [boundsSlice, aux_maxI]
+  constructor
+  · have : (pyFloor (if lo < 0 then 0 else lo) : Rat) ≤ (c : Rat) + 1/2 := by
+      split
+      · have := pyFloor_le (0 : Rat)
+        have hc' : (0 : Rat) ≤ c := by exact_mod_cast hc0
+        linarith
+      · have := pyFloor_le lo; linarith [hc.2]
+    have h2 : ((pyFloor (if lo < 0 then 0 else lo) : Int) : Rat) < (c : Rat) + 1 := by linarith
+    have : pyFloor (if lo < 0 then 0 else lo) < c + 1 := by exact_mod_cast h2
+    omega
+  · have h := le_pyCeil hi
+    have : (c : Rat) - 1 < ((pyCeil hi : Int) : Rat) := by linarith [hc.1]
+    have : c - 1 < pyCeil hi := by exact_mod_cast this
+    omega
+
+/-- **swath chunks**: the assembled slice contains every intersecting chunk's slice -/
+theorem assemble_contains_chunks : ∀ (slices : List (Int × Int)) (r : Int × Int), assemble slices = some r →
+    ∀ s ∈ slices, r.1 ≤ s.1 ∧ s.2 ≤ r.2 := by
+  intro slices r h
+  cases slices with
+  | nil => simp [assemble] at h
+  | cons s0 rest =>
+    simp only [assemble, Option.some.injEq] at h
+    subst h
+    have key : ∀ (l : List (Int × Int)) (acc : Int × Int),
+        let res := l.foldl (fun acc t => (minI acc.1 t.1, maxI acc.2 t.2)) acc
+        (res.1 ≤ acc.1 ∧ acc.2 ≤ res.2) ∧ ∀ s ∈ l, res.1 ≤ s.1 ∧ s.2 ≤ res.2 := by
+      intro l
+      induction l with
+      | nil => intro acc; simp
+      | cons t ts ih =>
+        intro acc
+        have := ih (minI acc.1 t.1, maxI acc.2 t.2)
+        simp only [List.foldl_cons] at this ⊢
+        obtain ⟨⟨a1, a2⟩, a3⟩ := this
+        simp only [aux_minI, aux_maxI] at a1 a2 ⊢
+        refine ⟨⟨by omega, by omega⟩, ?_⟩
+        intro s hs
+        rcases List.mem_cons.mp hs with rfl | hs
+        · constructor <;> omega
+        · exact a3 s hs
+    intro s hs
+    obtain ⟨⟨k1, k2⟩, k3⟩ := key rest s0
+    rcases List.mem_cons.mp hs with rfl | hs
+    · exact ⟨k1, k2⟩
+    · exact k3 s hs
+
+example : startStopX 10 (3/4) (27/4) false = (1, 8) := by decide +kernel
+example : boundsSlice (3/4) (27/4) = (0, 8) := by decide +kernel
 
 end PyresampleModel.C11
